@@ -23,8 +23,22 @@ static void mx_init() {
     g_max = (volatile uint64_t*)mmap(NULL, sizeof(uint64_t) * 2 * MX_N, PROT_READ | PROT_WRITE, MAP_SHARED | MAP_ANONYMOUS, -1, 0);
     for (int i = 0; i < 2 * MX_N; i++) g_max[i] = 0;
 }
+// quiet mode: a judgement is being tried (one of several admissible descriptions of a closed
+// outline); nothing is emitted or recorded until one is accepted or all have failed
+static bool g_quiet = false;
+// deferred mode: violations of a tried description are buffered; the caller emits them only if no
+// description of the outline is accepted (and records the ratios itself)
+struct Deferred { std::string sub, cls; JFields tags; std::string case_json, detail, replay; };
+static std::vector<Deferred>* g_defer = nullptr;
+static void emit_violation(const std::string& sub, const std::string& cls, const JFields& tags, const std::string& case_json,
+                           const std::string& detail, const std::string& replay, bool verbose) {
+    if (g_quiet) return;
+    if (g_defer) { g_defer->push_back({sub, cls, tags, case_json, detail, replay}); return; }
+    R->violation(sub, cls, tags, case_json, detail, replay);
+    if (verbose) fprintf(stderr, "  ** VIOLATION %s/%s: %s\n", sub.c_str(), cls.c_str(), detail.c_str());
+}
 static void mx_note(int slot, double r) {
-    if (slot < 0 || !(r >= 0) || !std::isfinite(r)) return;
+    if (g_quiet || g_defer || slot < 0 || !(r >= 0) || !std::isfinite(r)) return;
     uint64_t b;
     memcpy(&b, &r, 8);
     uint64_t cur = __atomic_load_n(&g_max[slot], __ATOMIC_RELAXED);
@@ -461,11 +475,11 @@ static SecOut check_vertices(const CaseCtx& cx, const std::string& sub, JFields 
     tags.push_back({"tol", jstr(cx.tol_s)});
     auto viol = [&](const std::string& cls0, const JFields& extra, const std::string& detail) {
         std::string cls = cls_prefix + cls0;
+        out.bad = true;
+        if (g_quiet) return;
         JFields t = tags;
         for (auto& e : extra) t.push_back(e);
-        R->violation(sub, cls, t, cx.case_json, detail, cx.replay);
-        if (cx.verbose) fprintf(stderr, "  ** VIOLATION %s/%s: %s\n", sub.c_str(), cls.c_str(), detail.c_str());
-        out.bad = true;
+        emit_violation(sub, cls, t, cx.case_json, detail, cx.replay, cx.verbose);
     };
     // (1) vertices already present are untouched
     if (nafter < before.size() || memcmp(after, before.data(), sizeof(Vec2) * before.size()) != 0) {
@@ -515,7 +529,7 @@ static SecOut check_vertices(const CaseCtx& cx, const std::string& sub, JFields 
         if (!ex.find_from(v, tp, eps, t, dm, fine)) {
             if (fine == 1) {   // redo the whole ordered search in careful mode before judging
                 fine = 16;
-                R->count("careful_search");
+                if (!g_quiet) R->count("careful_search");
                 i = -1;
                 tp = 0;
                 continue;
@@ -531,7 +545,7 @@ static SecOut check_vertices(const CaseCtx& cx, const std::string& sub, JFields 
         }
         T[i + 1] = t;
         tp = t;
-        if (cx.verbose) fprintf(stderr, "    v[%d] = %s  param %.9Lg\n", i, vstr(nv[i]).c_str(), t);
+        if (cx.verbose && !g_quiet) fprintf(stderr, "    v[%d] = %s  param %.9Lg\n", i, vstr(nv[i]).c_str(), t);
     }
     if (!all_on) return out;
     // (5) deviation on eligible pieces
